@@ -67,6 +67,7 @@ type OracleSet struct {
 	OrderIndep      bool // C06: permuted fresh pipelines == canonical fresh pipeline
 	CrossNS         bool // C09: denied cross-namespace references have no influence
 	Gateway         bool // C10: Gateway API admission reference vs configuration
+	Acme            bool // C17: acme signing decisions and queue tracking
 	Property        string
 }
 
@@ -121,6 +122,10 @@ func (r *Run) Execute(or OracleSet) (err error) {
 
 func (r *Run) applyOp(op Op) error {
 	r.trace("OP %s", op)
+	if r.acme != nil && op.Type != "advance" && op.Type != "quiesce" {
+		r.acme.lastChange = time.Now()
+		r.acme.lastOp = time.Now()
+	}
 	switch op.Type {
 	case "apply":
 		if r.or.NoReload && r.kube.Truth(op.Kind, op.Key) == nil {
@@ -141,6 +146,13 @@ func (r *Run) applyOp(op Op) error {
 		}
 	case "advance":
 		r.advance(time.Duration(op.Ms) * time.Millisecond)
+	case "leader":
+		r.acmeSetLeader(op.Note == "true", op.Key == "sync")
+	case "acmecheck":
+		if r.ctl != nil && r.acme != nil {
+			r.probe("acme_external_check")
+			go func() { _, _ = r.ctl.svc.SimAcmePeriodicCheck() }()
+		}
 	case "faults_off":
 		r.faultsOff = true
 		r.lastFaultAt = time.Now()
@@ -153,6 +165,10 @@ func (r *Run) applyOp(op Op) error {
 		}
 		if !r.quiesce() {
 			return harnessError("no quiescence within the step budget")
+		}
+		if r.or.Acme && op.Note == "final" && r.acme != nil && (time.Since(r.acme.lastChange) < 8*time.Hour+30*time.Minute || r.acme.lastCheckAt.Before(r.acme.lastOp)) {
+			// (a minimisation candidate that dropped the settling time)
+			return invalidRun("C17: the final check needs a check period plus the longest back-off of settling time")
 		}
 		r.syncPoint(op.Note)
 		return nil
@@ -216,6 +232,7 @@ func (r *Run) runTask(g *rt.ParkedGate) {
 	cmds0, reloads0, faults0 := len(r.ha.AdminCmds), r.ha.Reloads, len(r.firedFaults)
 	pendingBefore := r.kube.Pending()
 	r.rt.Disk.TakeLog()
+	r.acmeBeforeReconcile()
 	r.runGate(g)
 	wrote := r.rt.Disk.TakeLog()
 	r.cur.adminCmds = len(r.ha.AdminCmds) - cmds0
@@ -254,6 +271,7 @@ func (r *Run) runTask(g *rt.ParkedGate) {
 
 func (r *Run) afterReconcile(informersLagging bool) {
 	or := r.or
+	r.acmeAfterReconcile()
 	if or.Loadable && r.cur.wroteCfg && r.cur.faults == 0 && !r.cur.failed {
 		r.checkLoadable()
 	}
@@ -449,6 +467,9 @@ func (r *Run) syncPoint(note string) {
 	}
 	if r.or.Gateway {
 		r.checkGateway()
+	}
+	if r.or.Acme {
+		r.checkAcme(note == "final")
 	}
 	if r.or.Routing {
 		r.checkRouting()
